@@ -151,6 +151,7 @@ inductive Ev
   | skip (k : Int)
   | dup (k : Int)
   | a                                                   -- a callback starts its next action
+  | hstop                                               -- the harness calls `tickit_stop` from inside the wait of a `run`
 deriving DecidableEq, Repr, Inhabited
 
 /-- Actions of a callback (and the top-level operations that do the same thing). -/
@@ -165,6 +166,7 @@ inductive Act
   | errno (v : Int)
   | raise (sig : Int)
   | exit (pid status : Int)
+  | stop                                                -- tickit_stop
   | nop
 deriving DecidableEq, Repr, Inhabited
 
@@ -240,6 +242,11 @@ structure St where
   blocked : List Int := []
   handled : List Int := []
   kpending : List Int := []
+  /-- `EventLoopData.still_running` -/
+  stillRunning : Bool := false
+  /-- the harness is inside `tickit_run`, and how often its `ppoll` has been called there -/
+  inRun : Bool := false
+  runPolls : Nat := 0
   errno : Int := 0
   clockUs : Int := 1000000000
   ready : List (Int × Nat) := []
@@ -552,6 +559,7 @@ def runAct (st : St) (act : Act) : St :=
       if st.children.any (·.pid = pid) then st      -- a child exits once
       else { st with children := st.children ++ [{ pid := pid, exited := true, reaped := false, status := status }] }
     else st
+  | .stop => { st with stillRunning := false }
   | .nop => st
 
 /-- `(*watch->fn)(t, flags, info, user)` with `FIRE` set, for the harness's callback of slot `k`. -/
@@ -740,6 +748,7 @@ def sigCb (fuel : Nat) (st : St) (a : Nat) (signum : Int) : St :=
   if (st.getW a).signum = signum then
     if (st.getW a).slot ≥ 0 then fireUser st (st.getW a).slot EV_FIRE .none
     else if (st.getW a).slot = -3 then onSigchld fuel st st.procs.head?
+    else if (st.getW a).slot = -5 then { st with stillRunning := false }    -- on_sigint: tickit_stop
     else st     -- on_sigwinch: the headless terminal has no output descriptor
   else st
 
@@ -874,6 +883,48 @@ def tick (fuel : Nat) (st : St) (nohang : Bool) : St :=
   else tickAfterPoll fuel (ppoll (nextTimerMsec st).1 (tickTimeout nohang (nextTimerMsec st).2)).1
          (ppoll (nextTimerMsec st).1 (tickTimeout nohang (nextTimerMsec st).2)).2
 
+/-! ### tickit_run -/
+
+/-- How many waits the harness lets one `tickit_run` make before it stops the loop itself. -/
+def maxRunPolls : Nat := 50
+
+/-- Inside `tickit_run` the harness's `ppoll` counts its calls and calls `tickit_stop` itself when the loop
+    would block for ever (no timeout, nothing ready, no signal) or has made `maxRunPolls` waits. -/
+def ppollRun (st : St) (timeoutMs : Option Int) : St × Option Nat :=
+  if !(ppoll st timeoutMs).1.isOk then ppoll st timeoutMs
+  else if (ppoll st timeoutMs).1.runPolls + 1 ≥ maxRunPolls || (timeoutMs = none && (ppoll st timeoutMs).2 = some 0) then
+    (({ (ppoll st timeoutMs).1 with runPolls := (ppoll st timeoutMs).1.runPolls + 1, stillRunning := false }).emit .hstop,
+     (ppoll st timeoutMs).2)
+  else ({ (ppoll st timeoutMs).1 with runPolls := (ppoll st timeoutMs).1.runPolls + 1 }, (ppoll st timeoutMs).2)
+
+/-- One iteration of the `while(evdata->still_running)` loop of `evloop_run` under `tickit_run`. -/
+def runIter (fuel : Nat) (st : St) : St :=
+  if !st.isOk then st
+  else if !(nextTimerMsec st).1.isOk then (nextTimerMsec st).1
+  else if !(ppollRun (nextTimerMsec st).1 (tickTimeout false (nextTimerMsec st).2)).1.isOk then
+    (ppollRun (nextTimerMsec st).1 (tickTimeout false (nextTimerMsec st).2)).1
+  else tickAfterPoll fuel (ppollRun (nextTimerMsec st).1 (tickTimeout false (nextTimerMsec st).2)).1
+         (ppollRun (nextTimerMsec st).1 (tickTimeout false (nextTimerMsec st).2)).2
+
+def runLoop (fuel : Nat) : Nat → St → St
+  | 0, st => if st.isOk then { st with status := .outOfFuel } else st
+  | n + 1, st =>
+    if !st.isOk then st
+    else if !st.stillRunning then st
+    else runLoop fuel n (runIter fuel st)
+
+/-- `tickit_run` (the terminal has been set up when the instance was built): watch SIGINT with
+    `on_sigint` (= `tickit_stop`), loop until stopped, cancel that watch. -/
+def run (fuel : Nat) (st : St) : St :=
+  if !st.isOk then st
+  else if !(runLoop fuel (maxRunPolls + 2)
+        { (watchSignal st 2 0 (-5)).1 with stillRunning := true, inRun := true, runPolls := 0 }).isOk then
+    runLoop fuel (maxRunPolls + 2) { (watchSignal st 2 0 (-5)).1 with stillRunning := true, inRun := true, runPolls := 0 }
+  else
+    watchCancel { (runLoop fuel (maxRunPolls + 2)
+        { (watchSignal st 2 0 (-5)).1 with stillRunning := true, inRun := true, runPolls := 0 }) with inRun := false }
+      (watchSignal st 2 0 (-5)).2
+
 /-! ### tickit.c: construction and destruction -/
 
 /-- `tickit_build` on a headless terminal with the default event loop: the terminal's input watch
@@ -934,6 +985,7 @@ inductive Op
   | inpoll (sig : Int)
   | tick
   | tickhang
+  | run
   | destroy
   | finish
   | bad
@@ -958,8 +1010,9 @@ def applyOp' (st : St) (op : Op) : St :=
     | .clock us => { st with clockUs := st.clockUs + us }
     | .ready fd bits => { st with ready := (fd, bits) :: st.ready.filter (·.1 ≠ fd) }
     | .inpoll s => { st with inpoll := st.inpoll ++ [s] }
-    | .tick => tick defaultFuel st true
-    | .tickhang => tick defaultFuel st false
+    | .tick => tick defaultFuel { st with stillRunning := true } true
+    | .tickhang => tick defaultFuel { st with stillRunning := true } false
+    | .run => run defaultFuel st
     | .destroy => destroy st
     | _ => st
 
